@@ -54,6 +54,8 @@ pub struct SerObs {
     pub pretty: Result<String, String>,
     pub pretty_tokens: Result<Vec<(usize, usize, bool, String, bool)>, ()>,
     pub outputs: Vec<(usize, String)>,
+    pub tok_events: Option<Vec<(usize, String)>>,     // the (node, event) each token / pretty token is paired with
+    pub ptok_events: Option<Vec<(usize, String)>>,
 }
 
 pub fn output_text(reg: &Reg, o: &Output) -> String {
@@ -83,7 +85,9 @@ pub fn observe(xot: &Xot, reg: &Reg, index: &HashMap<Node, usize>, node: Node, p
     let tokens = guard(|| xot.tokens(node, tp(), NoopNormalizer).map(|(n, _, t)| (idx(n), t.space, t.text)).collect::<Vec<_>>());
     let pretty_tokens = guard(|| xot.pretty_tokens(node, tp(), &suppress, NoopNormalizer).map(|(n, _, t)| (idx(n), t.indentation, t.space, t.text, t.newline)).collect::<Vec<_>>());
     let outputs = xot.outputs(node).map(|(n, o)| (idx(n), output_text(reg, &o))).collect();
-    SerObs { ser, tokens, pretty, pretty_tokens, outputs }
+    let tok_events = guard(|| xot.tokens(node, tp(), NoopNormalizer).map(|(n, o, _)| (idx(n), output_text(reg, &o))).collect::<Vec<_>>()).ok();
+    let ptok_events = guard(|| xot.pretty_tokens(node, tp(), &suppress, NoopNormalizer).map(|(n, o, _)| (idx(n), output_text(reg, &o))).collect::<Vec<_>>()).ok();
+    SerObs { ser, tokens, pretty, pretty_tokens, outputs, tok_events, ptok_events }
 }
 
 pub fn obs_text(o: &SerObs) -> String {
